@@ -121,6 +121,64 @@ def build_block(cp, blk, kind, body):
     return True
 
 
+def kwargs_for(cp, kind, body):
+    """The same statements as keyword arguments of the block's constructor, in statement order (None if a keyword
+    would repeat or a statement has no keyword form)."""
+    kw = {}
+    for st in body:
+        if st[0] == "s":
+            alias = live_alias(cp, kind, st)
+            vals = [RP.decode_literal(x) for x in st[3]]
+            if len(vals) == 1:
+                val = vals[0]
+            elif len(vals) == 2:
+                val = [(vals[0], vals[1])]
+            else:
+                val = True
+                if not callable(getattr(getattr(cp, KIND_CLASS_NAMES[kind]), alias, None)):
+                    return None
+            if len(vals) == 2 and not callable(getattr(getattr(cp, KIND_CLASS_NAMES[kind]), alias, None)):
+                return None
+        elif st[0] == "b":
+            if st[3] is not None:
+                return None
+            sub = kwargs_for(cp, st[4], st[5])
+            if sub is None:
+                return None
+            alias, val = st[1], getattr(cp, KIND_CLASS_NAMES[st[4]])(**sub)
+        else:
+            if len(st[3]) != 1:
+                return None
+            steps, term = st[3][0]
+            spec = []
+            for x in list(steps) + [term]:
+                name = x[2][0]
+                spec.append(name if not x[3] else (name, RP.decode_literal(x[3][0])))
+            alias, val = st[1], cp.DataTransformBlock(steps=spec)
+        if alias in kw or not alias.isidentifier():
+            return None
+        kw[alias] = val
+    return kw
+
+
+def build_profile_kwargs(cp, csent):
+    """Top-level statements through explicit calls, every block below through Block(**kwargs)."""
+    prof = cp.C2Profile()
+    for st in csent:
+        if st[0] == "s":
+            prof.set_option(st[2][-1], RP.decode_literal(st[3][0]))
+        elif st[0] == "b":
+            if st[3] is not None:
+                return None
+            kw = kwargs_for(cp, st[4], st[5])
+            if kw is None:
+                return None
+            prof.set_config_block(st[1], getattr(cp, KIND_CLASS_NAMES[st[4]])(**kw))
+        else:
+            return None
+    return prof
+
+
 def canonical(cp, sent):
     """Rewrite every literal of the sentence into the library's canonical form (what the builder would print)."""
     def lit(x):
@@ -178,6 +236,13 @@ def check_sentence(acc, cp, sent, label, builder=True):
             return
         if copy.deepcopy(built.as_dict()) != copy.deepcopy(parsed.as_dict()):
             acc.fail("C11/builder/dict", dict(case, tokens=ctoks), repr(parsed.as_dict())[:400], repr(built.as_dict())[:400])
+            return
+        # the same profile with every block built by its constructor's keyword arguments, in statement order
+        kb = build_profile_kwargs(cp, csent)
+        if kb is not None:
+            acc.count("builder_kwargs_equivalence_checked")
+            if kb.tree != parsed.tree or kb.as_text() != t1 or list(copy.deepcopy(kb.as_dict()).items()) != list(copy.deepcopy(parsed.as_dict()).items()):
+                acc.fail("C11/builder/kwargs-order", dict(case, tokens=ctoks), str(parsed.tree)[:400], str(kb.tree)[:400])
     except Exception as e:  # noqa
         acc.fail("C11/builder/exception", dict(case, tokens=ctoks), "built profile", f"{type(e).__name__}: {str(e)[:200]}")
 
@@ -338,7 +403,7 @@ EVENTS = (
     ("opt", "sleeptime", "1000"), ("opt", "jitter", "10"), ("opt", "useragent", 'UA "x"'), ("opt", "sleeptime", "2000"),
     ("blk", "http_get", "HttpGetBlock", {"uri": "/a"}), ("blk", "stage", "StageBlock", {"cleanup": "true"}),
     ("blk", "http_get", "HttpGetBlock", {"verb": "POST"}), ("blk", "dns_beacon", "DnsBeaconBlock", {"maxdns": "255"}),
-    ("read", "as_dict"), ("read", "properties"), ("read", "as_text"),
+    ("read", "as_dict"), ("read", "properties"), ("read", "as_text"), ("read", "missing"),
 )
 BLK_KW = {"http_get": "http-get", "stage": "stage", "dns_beacon": "dns-beacon"}
 
@@ -348,6 +413,17 @@ def apply_event(cp, prof, ev):
         prof.set_option(ev[1], ev[2])
     elif ev[0] == "blk":
         prof.set_config_block(ev[1], getattr(cp, ev[2])(**ev[3]))
+    elif ev[1] == "missing":
+        # a caller that subscripts the view with paths the profile does not state: that is a KeyError every time and
+        # leaves no trace in the view
+        for view in (prof.properties, prof.as_dict()):
+            for key in ("http-post.uri", "zz.absent"):
+                try:
+                    view[key]
+                except KeyError:
+                    continue
+                raise AssertionError(f"the view answers for the absent path {key!r}: {view[key]!r}")
+        return None
     elif ev[1] == "as_dict":
         return copy.deepcopy(prof.as_dict())
     elif ev[1] == "properties":
@@ -401,7 +477,7 @@ def run_history(acc, cp, hist):
         return
     # every intermediate read must have reported the modifications made up to that point
     for i, (ev, obs) in enumerate(zip(hist, observed)):
-        if ev[0] == "read" and ev[1] != "as_text":
+        if ev[0] == "read" and ev[1] not in ("as_text", "missing"):
             pre = reference_sentence(cp, hist[:i])
             w = RP.compare_dict(obs, pre)
             if w:
